@@ -1,9 +1,12 @@
 """C17 — paginated listing (DESIGN.md section 6, C17; patterns P2 + P3).
 
-model     Paginate.tla / PaginateMC.tla checked exhaustively by TLC (5 ids, page sizes 1..3, bounded histories)
-generate  transition cover (tools/graphwalk.py) of the reduced Paginate state graph -> histories;
+model     Paginate.tla / PaginateMC.tla checked exhaustively by TLC (5 ids, page sizes 1..3, bounded histories,
+          traversals under a visibility filter that hides a set of ids: pages arrive shortened or empty with a cursor)
+generate  transition cover (tools/graphwalk.py) of the reduced Paginate state graph -> histories
+          (StartTraversal(H) / Iterate(H) for the hidden sets H of the tier);
           seeded random histories and cursor jobs are generated inside the Go harness
-replay    harness/mcp/c17_paginate_test.go: real Server + real Client over in-memory transports, 4 feature kinds
+replay    harness/mcp/c17_paginate_test.go: real Server + real Client over in-memory transports, 4 feature kinds;
+          the filter is a receiving middleware on the real server
 judge     PaginateMon.tla (property only -> verdict), PaginateTrace.tla (strict -> drift)
 """
 import base64, json, os, re, subprocess, threading, time
@@ -22,12 +25,13 @@ def parse_set(txt):
 def cover_histories(v, seed, tier):
     wd = vlib.scratch("tlc-")
     dot = os.path.join(wd, "g.dot")
-    rc = vlib.run_tlc("PaginateMC", "Paginate_cover.cfg", workdir=wd, timeout=600, heap_gb=4, workers=4,
+    cfg = "Paginate_cover.cfg" if tier == "quick" else "Paginate_cover_thorough.cfg"
+    rc = vlib.run_tlc("PaginateMC", cfg, workdir=wd, timeout=600, heap_gb=4, workers=4,
                       extra_args=["-dump", "dot,actionlabels", dot])
     vlib.tlc_must_pass(rc, "cover")
     if not rc.ok:
         raise vlib.MachineryError("cover model violates %s" % rc.violation)
-    v.add_tlc("Paginate_cover.cfg", rc)
+    v.add_tlc(cfg, rc)
     init, edges = graphwalk.parse_dot(dot)
     paths, total_edges = graphwalk.cover(init, edges, maxlen=40, seed=seed, skip_selfloops=False)
     v.cov["graph_edges"] = total_edges
@@ -38,7 +42,11 @@ def cover_histories(v, seed, tier):
         if not p or p[0][0] != "Setup":
             raise vlib.MachineryError("cover path %d does not start with Setup: %r" % (i, p[:2]))
         init_set, ps = parse_set(str(p[0][1][0])), int(p[0][1][1])
-        ops = [[name, args] for (name, args) in p[1:]]
+        ops = []
+        for (name, args) in p[1:]:
+            if name in ("CStartTraversal", "CIterate"):  # the argument is the hidden set
+                args = parse_set(str(args[0])) if args else []
+            ops.append([name, args])
         kinds = range(4) if tier == "thorough" else [(i + seed) % 4, (i + seed + 2) % 4]
         for k in kinds:
             rows.append({"id": "cover%d.%s" % (i, KINDS[k]), "kind": k, "ps": ps, "init": init_set, "ops": ops})
@@ -130,11 +138,11 @@ def ops_of(trows, upto):
         if ev == "mut":
             ops.append([{"add": "Add", "replace": "Replace", "remove": "Remove"}[r["op"]], [r["id"]]])
         elif ev == "start":
-            ops.append(["StartTraversal", []])
+            ops.append(["StartTraversal", list(r.get("hid") or [])])
         elif ev == "page":
             ops.append(["FetchPage", []])
         elif ev == "iter" and r.get("cls") == "start":
-            ops.append(["Iterate", []])
+            ops.append(["Iterate", list(r.get("hid") or [])])
     return ops
 
 
@@ -145,6 +153,11 @@ def run(tier, seed, replay):
         "a cursor is 'malformed' iff the reference decoder of the documented format (base64url(gob(pageToken{LastUID}))) rejects it",
         "a request that does not return within 20 s (real time) counts as a hang; a crash of the test process is attributed to the request in flight",
         "in-memory transports; one client session per server; TTL 0 (no client-side caching of list results)",
+        "pages that are shortened or empty on arrival yet carry a cursor come from a receiving middleware on the real server that "
+        "removes a fixed set of ids from every list result for the duration of one traversal (what is registered as far as the client "
+        "can tell is registered minus hidden); the filter never changes during a traversal",
+        "the iterator replay of a history (iterrun) holds each list request of the iterator in a sending middleware of the client "
+        "until the matching page fetch of the manual run, and compares the yielded sequence only",
         "TLC exhaustive results are for the stated small constants"]
     out = vlib.outdir(PID)
     phases, t_last = {}, [time.time()]
@@ -165,14 +178,21 @@ def run(tier, seed, replay):
     v.add_tlc(cfg, res)
     if not res.ok:
         raise vlib.MachineryError("model violates %s: the Paginate model no longer satisfies its own invariants" % res.violation)
+    if tier != "quick":
+        # the long histories above run without a filter; every hidden set (all 32) under mutation is a second run
+        res = vlib.run_tlc("PaginateMC", "Paginate_mc_hidden.cfg", timeout=1500, heap_gb=10, workers=8)
+        vlib.tlc_must_pass(res, "Paginate_mc_hidden.cfg")
+        v.add_tlc("Paginate_mc_hidden.cfg", res)
+        if not res.ok:
+            raise vlib.MachineryError("model violates %s under a visibility filter" % res.violation)
     phase("model")
     # 1b. vacuity witnesses: these must be violated (run side by side, small constants)
-    wits = ("NeverStaleCursor", "NeverDoneMutated", "NeverUnstableSeen", "NeverMultiPage")
+    wits = ("NeverStaleCursor", "NeverDoneMutated", "NeverUnstableSeen", "NeverMultiPage", "NeverEmptyPageThenItems", "NeverShortPage")
     witres = {}
 
     def one_witness(wit):
         cfgtxt = ("SPECIFICATION MCSpec\nCONSTANTS\n  Ids = {1,2,3,4}\n  PageSizes = {1,2}\n  MaxMut = 2\n  MaxTrav = 1\n"
-                  "CONSTRAINT Bound\nVIEW MCView\nINVARIANT %s\n" % wit)
+                  "CONSTANT HiddenSets <- SomeHidden\nCONSTRAINT Bound\nVIEW MCView\nINVARIANT %s\n" % wit)
         witres[wit] = vlib.run_tlc("PaginateMC", "wit.cfg", extra_files={"wit.cfg": cfgtxt}, timeout=300, workers=1, heap_gb=1)
 
     threads = [threading.Thread(target=one_witness, args=(w,)) for w in wits]
@@ -216,6 +236,30 @@ def run(tier, seed, replay):
     v.cov["pages"] = sum(1 for r in obs_rows if r.get("ev") == "page")
     v.cov["cursor_probes"] = sum(1 for r in obs_rows if r.get("ev") == "cursor")
     v.cov["iterator_runs"] = sum(1 for r in obs_rows if r.get("ev") in ("iter", "iterrun"))
+    # pages that arrived shortened / empty although they carry a cursor, and the iterator runs that crossed one
+    empty_pages = sum(1 for r in obs_rows if r.get("ev") == "page" and not r.get("err") and r.get("more") and not r.get("ids"))
+    iter_over_empty = sum(1 for r in obs_rows if r.get("ev") == "iter" and r.get("emptycur", 0) > 0)
+    iter_over_short = sum(1 for r in obs_rows if r.get("ev") == "iter" and r.get("shortcur", 0) > 0)
+    iterrun_over_empty = 0
+    for tid, start, trows in traces:
+        ntr, empties = 0, {}
+        for r in trows[1:]:
+            if r["ev"] == "start":
+                ntr += 1
+            elif r["ev"] == "page" and not r.get("err") and r.get("more") and not r.get("ids"):
+                empties[ntr] = True
+            elif r["ev"] == "iterrun" and empties.get(r.get("trav")):
+                iterrun_over_empty += 1
+    v.cov["filtered"] = {
+        "traversals_under_a_filter": sum(1 for r in obs_rows if r.get("ev") == "start" and r.get("hid")),
+        "iterator_runs_under_a_filter": sum(1 for r in obs_rows if r.get("ev") in ("iter", "iterrun") and r.get("hid")),
+        "hidden_sets": len(set(tuple(r["hid"]) for r in obs_rows if r.get("ev") in ("start", "iter") and r.get("hid"))),
+        "manual_pages_empty_with_cursor": empty_pages,
+        "iter_lines_over_an_empty_page_with_cursor": iter_over_empty,
+        "iter_lines_over_a_shortened_page_with_cursor": iter_over_short,
+        "iterrun_lines_over_an_empty_page_with_cursor": iterrun_over_empty}
+    if not replay and (iter_over_empty == 0 or iterrun_over_empty == 0 or iter_over_short == 0):
+        raise vlib.MachineryError("vacuity: no iterator run crossed a page that arrived empty/shortened with a cursor: %r" % v.cov["filtered"])
     cls = {}
     for r in obs_rows:
         if r.get("ev") == "cursor":
@@ -244,14 +288,15 @@ def run(tier, seed, replay):
             nontrivial += 1
     v.cov["distinct_nontrivial"] = nontrivial
     v.cov["feature_kinds"] = sorted(k for k in kinds_seen if k)
-    v.cov["rule"] = ("histories = transition cover of the TLC state graph of PaginateMC!CoverSpec (every edge; graph reduced by a "
+    v.cov["rule"] = ("histories = transition cover of the TLC state graph of PaginateMC!CoverSpec (every edge, StartTraversal(H) and Iterate(H) "
+                     "for every hidden set H of the tier: 4 in quick, all 32 in thorough; graph reduced by a "
                      "VIEW that hides ghost variables) x feature kinds + seeded random histories + cursor jobs; distinct by "
                      "(page size, initial set, operation sequence); non-trivial = a traversal fetched a page after the "
                      "registered set changed behind an earlier page")
     v.cov["exhaustive"] = False
     for tid, start, trows in traces[:1] + traces[-1:]:
         v.sample({"trace": tid, "kind": trows[0].get("kind"), "ps": trows[0].get("ps"), "init": trows[0].get("init"),
-                  "lines": [{k: r[k] for k in ("ev", "op", "id", "cls", "ids", "more", "err", "seq") if r.get(k) not in (None, "", [], 0)}
+                  "lines": [{k: r[k] for k in ("ev", "op", "id", "cls", "hid", "ids", "more", "err", "seq") if r.get(k) not in (None, "", [], 0)}
                             for r in trows[1:9]]})
 
     phase("stats")
@@ -278,7 +323,7 @@ def run(tier, seed, replay):
         rep["line"] = e
         v.violation(sig, "monitor %s failed at log line %d, trace %s (%s, page size %s): %s" % (
             f["monfail"], f["line"], tid, head.get("kind"), head.get("ps"),
-            json.dumps({k: e.get(k) for k in ("ev", "cls", "op", "ids", "more", "err", "seq", "man", "alive", "panic") if e.get(k) not in (None, "", [])})[:400]), rep)
+            json.dumps({k: e.get(k) for k in ("ev", "cls", "op", "hid", "ids", "more", "err", "seq", "man", "trav", "alive", "panic") if e.get(k) not in (None, "", [])})[:400]), rep)
 
     phase("monitor")
     if exhausted and not v.violations:
